@@ -211,32 +211,7 @@ def run(ctx):
                        f'incremented at blocks {epoch_writes}; every such read (and the insert) must come after the increment',
                        [site(b, c.bb)])
 
-    R6 = 'C08-R6'
-    ctx.rule(R6, 'the object pools of the version manager (VersionManagerInner::rowsets, ::dvs) hold what pinned snapshots still list; '
-                 'they shrink only in find_vacuum, below the pin horizon. A commit that evicts an entry when it logs the Delete* record '
-                 'pulls it from under a reader pinned before that commit')
-    n_rm = 0
-    for bd in prog.bodies.values():
-        for c in bd.calls:
-            if not re.search(r'HashMap::<.*>::(remove|remove_entry|retain|clear|drain)$', c.name or ''):
-                continue
-            if not (c.args and c.args[0]['k'] != 'const'):
-                continue
-            flds = set()
-            for bb, kind, payload in local_defs(bd, c.args[0]['pl']['l']):
-                if kind == 'assign':
-                    for pl in operand_places(payload):
-                        flds |= {f for f in pl_fields(pl) if f in (INNER + '::rowsets', INNER + '::dvs')}
-            if not flds:
-                continue
-            n_rm += 1
-            ctx.functions_analysed.add(bd.name)
-            ok = bd.root == FIND
-            ctx.ob(R6, f'{bd.root}·evicts·{sorted(flds)[0].rsplit("::", 1)[-1]}', ok,
-                   f'{bd.name}: {c.name.rsplit("::", 1)[-1]} on {sorted(flds)} at block {c.bb}', [site(bd, c.bb)],
-                   what=f'{bd.root} removes entries from the version manager\'s object pool outside find_vacuum: a reader whose pinned '
-                        'snapshot still lists the object panics when it opens its scan')
-    ctx.floor(R6, n_rm, 1, 'removals from the version manager object pools')
+    pools_shrink_only_in_vacuum(ctx, prog, 'C08-R6')
 
     R7 = 'C08-R7'
     ctx.rule(R7, 'a transaction reads what it pinned: everything scan_inner learns about the table (row-set list, delete vectors) comes from '
@@ -285,3 +260,32 @@ def _places(body):
 
 def short_fn(n):
     return re.sub(r'<[^<>]*>', '', (n or '?')).replace('std::collections::', '').replace('std::iter::', '')
+
+
+def pools_shrink_only_in_vacuum(ctx, prog, R6):
+    """C08-R6 = C07-R7: the object pools shrink only in find_vacuum"""
+    ctx.rule(R6, 'the object pools of the version manager (VersionManagerInner::rowsets, ::dvs) hold what pinned snapshots still list; '
+                 'they shrink only in find_vacuum, below the pin horizon. A commit that evicts an entry when it logs the Delete* record '
+                 'pulls it from under a reader pinned before that commit')
+    n_rm = 0
+    for bd in prog.bodies.values():
+        for c in bd.calls:
+            if not re.search(r'HashMap::<.*>::(remove|remove_entry|retain|clear|drain)$', c.name or ''):
+                continue
+            if not (c.args and c.args[0]['k'] != 'const'):
+                continue
+            flds = set()
+            for bb, kind, payload in local_defs(bd, c.args[0]['pl']['l']):
+                if kind == 'assign':
+                    for pl in operand_places(payload):
+                        flds |= {f for f in pl_fields(pl) if f in (INNER + '::rowsets', INNER + '::dvs')}
+            if not flds:
+                continue
+            n_rm += 1
+            ctx.functions_analysed.add(bd.name)
+            ok = bd.root == FIND
+            ctx.ob(R6, f'{bd.root}·evicts·{sorted(flds)[0].rsplit("::", 1)[-1]}', ok,
+                   f'{bd.name}: {c.name.rsplit("::", 1)[-1]} on {sorted(flds)} at block {c.bb}', [site(bd, c.bb)],
+                   what=f'{bd.root} removes entries from the version manager\'s object pool outside find_vacuum: a reader whose pinned '
+                        'snapshot still lists the object panics when it opens its scan')
+    ctx.floor(R6, n_rm, 1, 'removals from the version manager object pools')
